@@ -18,7 +18,7 @@ RULE = (
     "reactions over existing metabolites, a ring attached at one metabolite or detached from the network; reactions "
     "written along or against the ring direction; reversible, irreversible or palette bounds; a few unbalanced "
     "'gain' rings), <=5 internal reactions (quick) / <=6 (thorough), all bounds finite and clipped to a generated "
-    "magnitude cap in {100,20,10,5,2,1} (the cap is add_loopless' big-M), 1 in 4 specs with forced (lb>0) internal "
+    "magnitude cap in {100,20,10,5,2,1} (the cap is add_loopless' big-M; in half of the models the lower or the upper bounds get a cap 5-10x smaller, so that the largest bound is one-sided), 1 in 4 specs with forced (lb>0) internal "
     "bounds, objective from the spec / on a cycle reaction / mixed, direction max and min, glpk. Two modes. "
     "(a) loopless_solution with fluxes = None, an optimize() solution, a pFBA solution (each optionally after an "
     "earlier optimisation of another objective on the same model, so that the solver warm-starts from a basis with "
@@ -76,10 +76,14 @@ def cyclic_spec(draw, max_int):
     spec = draw(specs.model_spec(max_mets=mm, min_mets=2, max_rxns=mm + 3, min_rxns=2, families=("pathway",), palette=pal, gprs=False,
                                  objective="any", solvers=("glpk",), directions=("max", "max", "min"), halves=False))
     cap = draw(st.sampled_from([100, 100, 100, 100, 20, 10, 5, 2, 1]))
+    # about half of the models have different magnitude caps for lower and upper bounds, so that the largest bound of the model
+    # (add_loopless' big-M) may be a lower bound only, or an upper bound only (since seeded change C17-5)
+    cap_lo, cap_hi = draw(st.sampled_from([(1, 1), (1, 1), (1, 1), (1, 1), (1, 5), (5, 1), (1, 10), (10, 1)]))
+    cap_lo, cap_hi = max(1, cap // cap_lo), max(1, cap // cap_hi)
     nm = len(spec["mets"])
     rxns = spec["rxns"]
     for r in rxns:
-        r["lb"], r["ub"] = max(r["lb"], -cap), min(r["ub"], cap)
+        r["lb"], r["ub"] = max(r["lb"], -cap_lo), min(r["ub"], cap_hi)
         if r["lb"] > r["ub"]:
             r["lb"] = r["ub"]
     # leave room for 1-4 cycle reactions: drop surplus extras (never the uptake / chain / sink)
@@ -123,18 +127,19 @@ def cyclic_spec(draw, max_int):
             ga, gb = draw(st.sampled_from([(1, 1), (1, 1), (1, 1), (1, 1), (2, 2), (1, 2), (2, 1)]))
             # "against": written b -> a, the ring direction is then negative flux of the same conversion
             mets = {a: -ga, b: gb} if along else {b: -gb, a: ga}
-            big = min(cap, draw(st.sampled_from([100, 100, 10, 5, 1])))
+            big = draw(st.sampled_from([100, 100, 10, 5, 1]))
+            big_lo, big = min(cap_lo, big), min(cap_hi, big)
             bk = draw(st.sampled_from(["rev", "rev", "rev", "irr", "irr", "irr", "palette", "palette", "forced"]))
             if bk == "rev":
-                lb, ub = -big, big
+                lb, ub = -big_lo, big
             elif bk == "irr":
-                lb, ub = (0, big) if along else (-big, 0)
+                lb, ub = (0, big) if along else (-big_lo, 0)
             elif bk == "forced":  # a flux the ring has to carry: the loop cannot be removed completely
-                f = min(big, draw(st.sampled_from([1, 2, 0.5])))
-                lb, ub = (f, big) if along else (-big, -f)
+                f = min(big if along else big_lo, draw(st.sampled_from([1, 2, 0.5])))
+                lb, ub = (f, big) if along else (-big_lo, -f)
             else:
                 lb, ub = draw(specs.bounds(pal))
-                lb, ub = max(lb, -cap), min(ub, cap)
+                lb, ub = max(lb, -cap_lo), min(ub, cap_hi)
                 if lb > ub:
                     lb = ub
             rid = f"C{len(cyc_ids)}"
